@@ -125,8 +125,10 @@ def make_new(nk, tok, old=None):
     s = sentinel(tok)
     names = target_names(old)
     if nk == 'number': return s
-    if nk == 'list': return [s]
-    if nk == 'listLong': return [s] + [1.0] * 8
+    if nk == 'list':      # as many elements as fit (at most 2), each with its own sentinel
+        n = min(2, len(names)) if (old is not None and isinstance(old, ss.Dist)) else 1
+        return [s + i / 1048576.0 for i in range(max(n, 1))]
+    if nk == 'listLong': return [s + i / 1048576.0 for i in range(9)]
     if nk == 'dictNoType': return {names[0]: s}
     if nk == 'dictNoTypeBad': return {'zz_unknown': s}
     if nk == 'dictTypeBern': return dict(type='bernoulli', p=s)
@@ -558,6 +560,9 @@ def correspond(ctx):
     # ---- (4) spellings ---------------------------------------------------------------------------------------------
     spelling_cases(ctx, ask, mods)
 
+    # ---- (4b) round 2: merging, ss.Time route, duplicates, depth-3 nesting ------------------------------------------
+    round2_cases(ctx, ask, classes)
+
     # ---- (5) inputs copied -----------------------------------------------------------------------------------------
     def cb_copy(ml):
         obs = observe_copy(ctx.rng.randint(0, 10**6))
@@ -579,6 +584,109 @@ def correspond(ctx):
             return
     for start, n, cb in checks:
         cb(out[start:start + n])
+
+
+def round2_cases(ctx, ask, classes):
+    """ keyword/dict precedence, classes that never call update_pars (ss.Time route), duplicate module names, depth 3 """
+    import starsim as ss
+    quiet()
+
+    def verdict(fn):
+        try:
+            return 'ok', fn()
+        except Exception as e:
+            return err_kind(e), f'{type(e).__name__}: {str(e)[:80]}'
+
+    def cmp(name, ls, impl, extract, data):
+        """ impl = (verdict, value); extract(model line) -> expected comparable value """
+        def cb(ml):
+            mo = ml[-1]
+            ctx.case(('round2', name, repr(data)), True, sample=dict(kind='round2', case=name, impl=str(impl)[:120], model=mo[:120], **data) if ctx.rng.random() < 0.1 else None)
+            ctx.count('r2_' + name)
+            exp = extract(mo)
+            got = impl[0] if impl[0] != 'ok' else ('ok', impl[1])
+            if exp != got and len([b for b in ctx.broken if b['name'] == 'C17.round2']) < 8:
+                ctx.broke('correspondence', 'C17.round2', f'{name} {data}: impl={got} model={mo[:100]} (expected {exp})', data=dict(kind='round2', case=name, **data))
+        ask(ls, cb)
+
+    # (a) precedence in Module.update_pars: same key in the dict and as a keyword, for every numeric parameter of every class
+    a, b = sentinel(3), sentinel(4)
+    for mk, cls in classes:
+        m0 = construct(cls)
+        if not uses_update_pars(cls): continue
+        for par in [k for k in m0.pars.keys() if okind_of(m0.pars[k]) == 'num' and not isinstance(m0.pars[k], bool)][:2]:
+            for form in ('posdict', 'parsdict'):
+                ps = [p_ for p_ in inspect.signature(cls.__init__).parameters.values() if p_.name != 'self']
+                if form == 'posdict' and (not ps or ps[0].name != 'pars'): continue
+                def run(cls=cls, par=par, form=form):
+                    m = cls({par: a}, **{par: b}) if form == 'posdict' else construct(cls, pars={par: a}, **{par: b})
+                    return m.pars[par]
+                impl = verdict(run)
+                def ex(mo, par=par):
+                    items = dict((x.split(':')[0], int(x.split(':')[2])) for x in mo.split()[1].split(',')) if mo.startswith('ok ') else None
+                    return ('ok', sentinel(items[par])) if items else mo.split()[0]
+                cmp('kw-vs-dict', [f'mergekw {par}:number:3 {par}:number:4'], impl, ex, dict(cls=cls.__name__, par=par, form=form))
+    # Sim: pars dict vs named argument vs keyword
+    for key, va, vb in (('n_agents', 111, 222), ('dt', 0.5, 0.25), ('rand_seed', 7, 9), ('label', 'la', 'lb'), ('verbose', 0, 0.5)):
+        impl = verdict(lambda: ss.Sim(pars={key: va}, **{key: vb}).pars[key])
+        cmp('sim-kw-vs-pars', [f'mergesim {key}:number:1 - {key}:number:2'], impl,
+            lambda mo, va=va, vb=vb: ('ok', {1: va, 2: vb}[int(mo.split()[1].split(':')[2])]), dict(key=key))
+    impl = verdict(lambda: ss.Sim(pars=dict(diseases='sis'), diseases='sir').pars['diseases'])
+    cmp('sim-arg-vs-pars', ['mergesim diseases:str:1 diseases:str:2 -'], impl,
+        lambda mo: ('ok', {1: 'sis', 2: 'sir'}[int(mo.split()[1].split(':')[2])]), {})
+    impl = verdict(lambda: (lambda s_: (s_.pars.n_agents, s_.pars.dt, s_.pars.diseases))(ss.Sim(pars=dict(n_agents=77, dt=0.5), diseases='sir', dt=0.25)))
+    cmp('sim-mixed', ['mergesim n_agents:number:1,dt:number:2 diseases:str:3 dt:number:4'], impl,
+        lambda mo: ('ok', (77, 0.25, 'sir')) if mo == 'ok n_agents:number:1,dt:number:4,diseases:str:3' else mo, {})
+
+    # (b) classes whose constructor never reaches update_pars: keywords and `pars=` go to ss.Time
+    nop = [cls for mk, cls in classes if not uses_update_pars(cls) and not issubclass(cls, ss.Network)]
+    ctx.notes['classes_without_update_pars'] = [c.__name__ for c in nop]
+    for cls in nop:
+        cn = cls.__name__
+        impl = verdict(lambda: construct(cls, zz_unknown=1) and 'built')
+        cmp('time-kw-unknown', ['timector asis zz_unknown:number:1 -'], impl, lambda mo: mo.split()[0] if not mo.startswith('ok') else ('ok', 'built'), dict(cls=cn))
+        impl = verdict(lambda: (lambda m: (m.t.dt, m.t.unit))(construct(cls, pars=dict(dt=0.5, unit='day'))))
+        cmp('time-pars-known', ['timector asis - dt:number:1,unit:str:2'], impl,
+            lambda mo: ('ok', (0.5, 'day')) if mo == 'ok dt:1,unit:2' else mo, dict(cls=cn))
+        impl = verdict(lambda: (lambda m: m.t.dt)(construct(cls, dt=0.25, pars=dict(dt=0.5))))
+        cmp('time-kw-vs-pars', ['timector asis dt:number:1 dt:number:2'], impl,
+            lambda mo: ('ok', {1: 0.25, 2: 0.5}[int(mo.split()[1].split(':')[1])]) if mo.startswith('ok dt:') else mo, dict(cls=cn))
+        impl = verdict(lambda: (lambda m: m.t.dt)(construct(cls, pars=dict(zz_unknown=1, dt=0.5))))
+        cmp('time-pars-unknown', ['timector asis - zz_unknown:number:1,dt:number:2'], impl,
+            lambda mo: ('ok', 0.5) if mo == 'ok dt:2' else mo.split()[0], dict(cls=cn))
+
+    # (c) module lists with repeated names
+    lists = [(['sir', 'sis'], 'sir,sis'), (['sir', 'sir'], 'sir,sir'), ([ss.SIR(), ss.SIR()], 'sir,sir'),
+             ([ss.SIR(name='a'), ss.SIR(name='b')], 'a,b'), (['sir', dict(type='sir')], 'sir,sir'),
+             ([ss.SIR(), 'sis', dict(type='sir', name='x')], 'sir,sis,x'), (['sis', ss.SIR(name='sis')], 'sis,sis')]
+    m_same = ss.SIR(); lists.append(([m_same, m_same], 'sir,sir'))
+    for lst, names in lists:
+        def run(lst=lst):
+            s_ = ss.Sim(diseases=lst); s_.pars.validate(); return ','.join(s_.pars.diseases.keys())
+        impl = verdict(run)
+        cmp('ndict-names', [f'ndict {names}'], impl, lambda mo: ('ok', mo.split()[1]) if mo.startswith('ok') else mo.split()[0], dict(names=names))
+    for lst, names in ((['random', 'random'], 'randomnet,randomnet'), (['random', 'mf'], 'randomnet,mfnet')):
+        def run(lst=lst):
+            s_ = ss.Sim(networks=lst); s_.pars.validate(); return ','.join(s_.pars.networks.keys())
+        impl = verdict(run)
+        cmp('ndict-names', [f'ndict {names}'], impl, lambda mo: ('ok', mo.split()[1]) if mo.startswith('ok') else mo.split()[0], dict(names=names))
+
+    # (d) depth 3: validated sim pars -> diseases container -> module -> parameter, vs updateN 3
+    for name in ('sir', 'sis'):
+        for key, val, item in (('dur_inf', 4.25, 'number'), ('zz_unknown', 1, 'number'), ('dur_inf', 'abc', 'str'), ('init_prev', None, 'nil')):
+            for target in (name, 'zz_nomodule'):
+                for create in (0, 1):
+                    spv = ss.SimPars(diseases=name, networks='random'); spv.validate()
+                    spec = leaves_spec(spv.diseases[name].pars)
+                    def run(spv=spv, target=target, key=key, val=val, create=create, name=name):
+                        spv.update(diseases={target: {key: val}}, create=bool(create))
+                        cur = spv.diseases[name].pars.get(key)
+                        return 'applied' if (val is None or (hasattr(cur, 'pars') and cur.pars[0] == val)) else f'not-applied:{cur}'
+                    impl = verdict(run)
+                    def ex(mo, key=key, item=item):
+                        if not mo.startswith('ok'): return mo.split()[0]
+                        return ('ok', 'applied') if (item == 'nil' or f'{key}:' in mo and ':oldFirst:5' in mo) else ('ok', 'model-not-applied')
+                    cmp('deep3', [f'deep asis {create} {name} {spec} {target} {key}:{item}:5'], impl, ex, dict(module=name, target=target, key=key, valkind=item, create=create))
 
 
 @contextlib.contextmanager
@@ -940,7 +1048,7 @@ def graph_has(root, new, nk, tok, maxdepth=7):
     seen = set()
 
     def hit(x):
-        if x is new and nk not in ('nil',): return True
+        if new is not None and x is new and nk not in ('nil',): return True
         if isinstance(x, float) and x == s: return True
         if isinstance(x, str) and nk == 'str' and x == want_str: return True
         if isinstance(x, np.ndarray) and x.dtype.kind == 'f' and x.size < 10000 and np.any(x == s): return True
@@ -988,6 +1096,8 @@ def in_effect(m, par, new, nk, tok):
         return cur is None or graph_has(m, new, nk, tok)
     if nk == 'cls':
         return cur is new
+    if isinstance(new, list) and not (cur is new):     # a list spread over parameters: EVERY element must be in effect
+        return all(graph_has_exact(cur, x) or graph_has_exact(m, x) for x in new)
     if graph_has(cur, new, nk, tok): return True
     return graph_has(m, new, nk, tok)      # constructors may move a value (Deaths.death_rate_data)
 
@@ -1066,6 +1176,8 @@ def oracle_spec_route(mk, name, par, nk, tok):
     elif nk == 'cls': ok = m.pars.get(par) is new
     elif nk in ('bern', 'dist', 'timeparD', 'timeparN', 'func', 'series', 'dataframe'):
         ok = graph_has(m, None, nk, tok) or (nk == 'func' and callable(m.pars.get(par)) or graph_has(m.pars.get(par), None, 'func', tok))
+    elif isinstance(new, list):
+        ok = all(graph_has_exact(m, x) for x in new)
     else:
         ok = graph_has(m, None, nk, tok)
     if not ok:
@@ -1207,12 +1319,376 @@ def oracle_spelling_pars(mk, name):
     return None
 
 
+# ---------------------------------------------------------------------------
+# round 2: always-exercised scenario families (every quick run)
+
+EDGE_NUMBERS = ['zero', 'negative', 'np.float64', 'np.int64', 'np.float32', 'bool', 'int']
+
+
+def edge_number(tag, tok):
+    s_ = sentinel(tok)
+    return {'zero': 0, 'negative': -s_, 'np.float64': np.float64(s_), 'np.int64': np.int64(3 + tok), 'np.float32': np.float32(0.5),
+            'bool': True, 'int': 2 + tok}[tag]
+
+
+def oracle_edge_number(cls, par, tag, tok, probe=False):
+    """ 0, negatives, numpy scalars and bools standing in for a Dist / TimePar: in effect exactly as given, or an error """
+    quiet()
+    ss = _ss()
+    v = edge_number(tag, tok)
+    try:
+        m = cls(**{par: v}) if probe else construct(cls, **{par: v})
+    except Exception:
+        return None
+    cur = m.pars.get(par)
+    holder = cur
+    got = None
+    if isinstance(cur, ss.Dist): got = list(cur.pars.values())[0] if len(cur.pars) else None
+    elif isinstance(cur, ss.TimePar): got = cur.v
+    else:
+        # the constructor may have wrapped / moved the parameter: look for the exact object anywhere in the module
+        got = v if graph_has_exact(m, v) else None
+    ok = got is v or (type(got) == type(v) and got == v) or graph_has_exact(m, v)
+    if ok: return None
+    return dict(signature=dict(oracle='edge-number-changed', edge=tag),
+                what=f"{cls.__name__}({par}={v!r} [{tag}]) returned normally but the value in effect is {got!r} ({type(got).__name__}) in {str(holder)[:60]}",
+                data=dict(kind='edge', cls=cls.__name__, probe=probe, par=par, tag=tag, tok=tok))
+
+
+def graph_has_exact(root, v, maxdepth=6):
+    seen = set()
+
+    def walk(x, d):
+        if x is v or (type(x) == type(v) and not isinstance(x, (np.ndarray,)) and isinstance(x, numbers.Number) and x == v): return True
+        if d > maxdepth or id(x) in seen: return False
+        seen.add(id(x))
+        if isinstance(x, (str, bytes, numbers.Number, type(None), np.ndarray, type)): return False
+        if isinstance(x, dict): return any(walk(y, d + 1) for y in x.values())
+        if isinstance(x, (list, tuple)): return any(walk(y, d + 1) for y in x)
+        dd = getattr(x, '__dict__', None)
+        if isinstance(dd, dict): return any(walk(y, d + 1) for k, y in dd.items() if k not in ('sim', 'module', 'rng'))
+        return False
+    return walk(root, 0)
+
+
+def first_param(dist_cls):
+    for p_ in inspect.signature(dist_cls.__init__).parameters.values():
+        if p_.name != 'self' and p_.kind == p_.POSITIONAL_OR_KEYWORD: return p_.name
+    return None
+
+
+def oracle_value_spellings(cls, par, tname, tok, probe=False):
+    """ par=dict(type=T, **kw)  ==  par=ss.T(**kw)  ==  ss.make_dist(type=T, **kw): a dict with `type` is a complete specification """
+    quiet()
+    ss = _ss()
+    T = getattr(ss, tname)
+    fp = first_param(T)
+    if fp is None: return None
+    kw = {fp: sentinel(tok)}
+    try:
+        ref = canon(ss.make_dist(dict(type=tname, **kw)))
+        ref2 = canon(T(**kw))
+    except Exception:
+        return None
+    data = dict(kind='value-spelling', cls=cls.__name__, probe=probe, par=par, tname=tname, tok=tok)
+    if ref != ref2:
+        return dict(signature=dict(oracle='value-spelling-differs', where='make_dist'), what=f'ss.make_dist(type={tname!r}, {kw}) differs from ss.{tname}({kw})', data=data)
+    res = {}
+    for tag, val in (('dict', dict(type=tname, **kw)), ('inst', T(**kw))):
+        for route in ('ctor', 'direct'):
+            try:
+                if route == 'ctor':
+                    m = cls(**{par: val}) if probe else construct(cls, **{par: val})
+                else:
+                    m = cls() if probe else construct(cls)
+                    val2 = dict(type=tname, **kw) if tag == 'dict' else T(**kw)
+                    m.pars.update({par: val2})
+                res[(tag, route)] = ('ok', canon(m.pars[par]))
+            except Exception as e:
+                res[(tag, route)] = (err_kind(e), None)
+    for route in ('ctor', 'direct'):
+        a_, b_ = res[('dict', route)], res[('inst', route)]
+        if a_[0] != b_[0] or (a_[0] == 'ok' and a_[1] != b_[1]):
+            return dict(signature=dict(oracle='value-spelling-differs', where=route),
+                        what=f"{cls.__name__}: {par}=dict(type={tname!r}, {fp}=x) and {par}=ss.{tname}({fp}=x) differ via {route}: {str(a_)[:120]} vs {str(b_)[:120]}", data=data)
+    a_ = res[('dict', 'direct')]
+    if a_[0] == 'ok' and a_[1] != ref:
+        return dict(signature=dict(oracle='value-spelling-differs', where='vs-make_dist'),
+                    what=f"{cls.__name__}.pars.update({par}=dict(type={tname!r}, {fp}=x)) is not the distribution ss.make_dist builds from that dict: {str(a_[1])[:120]} vs {str(ref)[:120]}", data=data)
+    return None
+
+
+def oracle_input_reuse(cls, tok, probe=False):
+    """ a pars dict passed to a module is not consumed or changed, and a second module built from it is identical """
+    quiet()
+    m0 = cls() if probe else construct(cls)
+    keys = [k for k in m0.pars.keys() if okind_of(m0.pars[k]) == 'num' and not isinstance(m0.pars[k], bool)
+            or okind_of(m0.pars[k]).startswith(('dist', 'timepar'))][:3]
+    if not keys or not uses_update_pars(cls, probe): return None
+    p_ = {k: sentinel(tok + i) for i, k in enumerate(keys)}
+    before = canon(p_)
+    data = dict(kind='input-reuse', cls=cls.__name__, probe=probe, tok=tok)
+    forms = ['pars']
+    ps = [q for q in inspect.signature(cls.__init__).parameters.values() if q.name != 'self']
+    if ps and ps[0].name == 'pars' and not probe: forms.append('positional')
+    for form in forms:
+        try:
+            mk_ = (lambda: cls(p_)) if form == 'positional' else ((lambda: cls(pars=p_)) if probe else (lambda: construct(cls, pars=p_)))
+            m1 = mk_()
+            mid = canon(p_)
+            m2 = mk_()
+        except Exception as e:
+            if canon(p_) != before:
+                return dict(signature=dict(oracle='input-dict-mutated'), what=f"{cls.__name__}({form} dict): the caller's dict was changed and the second construction failed ({type(e).__name__})", data=data)
+            continue
+        if mid != before or canon(p_) != before:
+            return dict(signature=dict(oracle='input-dict-mutated'),
+                        what=f"{cls.__name__}({'pars=' if form == 'pars' else ''}p) changed the caller's dict p: keys now {list(p_.keys())}, were {keys}", data=data)
+        if canon(m1.pars) != canon(m2.pars):
+            return dict(signature=dict(oracle='input-dict-reuse-differs'), what=f"two {cls.__name__} modules built from the same pars dict differ", data=data)
+        for i, k in enumerate(keys):
+            if not graph_has(m2.pars[k], None, 'number', tok + i) and not graph_has(m2, None, 'number', tok + i):
+                return dict(signature=dict(oracle='dropped', route='pars-dict-reuse', target=okind_of(m0.pars[k]).split('_')[0], newkind='number'),
+                            what=f"second {cls.__name__} built from the same pars dict ignores {k}={p_.get(k)}", data=data)
+    return None
+
+
+def oracle_sim_inputs(seed):
+    """ dicts / SimPars objects / dict specs handed to ss.Sim are not changed and can be reused; both sims agree """
+    import starsim as ss
+    quiet()
+    fails = []
+    s_ = sentinel(20 + seed % 50)
+    # (1) a plain pars dict with a nested module spec
+    p_ = dict(n_agents=90, dur=5, verbose=0, diseases=dict(type='sir', dur_inf=dict(type='normal', loc=4 + s_, scale=1.0), beta=0.2), networks=dict(type='random', n_contacts=4))
+    before = canon(p_)
+    try:
+        a_ = ss.Sim(pars=p_); b_ = ss.Sim(pars=p_)
+        if canon(p_) != before: fails.append('ss.Sim(pars=p) changed the caller\'s dict p')
+        a_.run(); b_.run()
+        if canon(p_) != before: fails.append('running a sim changed the dict it was built from')
+        if flat_results(a_) != flat_results(b_): fails.append('two sims built from the same pars dict give different results')
+        if a_.diseases[0].pars.dur_inf.pars[0] != 4 + s_: fails.append('nested dict spec value not in effect')
+    except Exception as e:
+        fails.append(f'building two sims from one pars dict failed: {type(e).__name__}: {str(e)[:80]}')
+    # (2) a SimPars object holding module instances
+    try:
+        dis = ss.SIR(dur_inf=4 + s_, beta=0.2)
+        sp = ss.SimPars(n_agents=90, dur=5, verbose=0, diseases=dis, networks=ss.RandomNet(n_contacts=4))
+        st0 = module_state(dis); keys0 = list(sp.keys())
+        a_ = ss.Sim(pars=sp); b_ = ss.Sim(pars=sp)
+        a_.run(); b_.run()
+        if module_state(dis) != st0: fails.append('a module held in a user\'s SimPars object was changed by sims built from it')
+        if list(sp.keys()) != keys0 or sp.diseases is not dis: fails.append('the user\'s SimPars object was changed')
+        if a_.diseases[0] is dis or b_.diseases[0] is dis or a_.diseases[0] is b_.diseases[0]:
+            fails.append('sims built from one SimPars object share its module instance although copy_inputs defaults to True')
+        if a_.pars is sp: fails.append('the sim uses the user\'s SimPars object itself')
+        if flat_results(a_) != flat_results(b_): fails.append('two sims built from one SimPars object give different results')
+        c_ = ss.Sim(n_agents=90, dur=5, verbose=0, diseases=ss.SIR(dur_inf=4 + s_, beta=0.2), networks=ss.RandomNet(n_contacts=4)); c_.run()
+        if flat_results(a_) != flat_results(c_): fails.append('ss.Sim(pars=SimPars(...)) and ss.Sim(**same) give different results')
+    except Exception as e:
+        fails.append(f'building two sims from one SimPars object failed: {type(e).__name__}: {str(e)[:80]}')
+    # (3) copy_inputs=False: the sim works on the user's objects (explicitly requested sharing)
+    try:
+        dis = ss.SIR(beta=0.2); net = ss.RandomNet()
+        c_ = ss.Sim(n_agents=90, dur=5, verbose=0, diseases=dis, networks=net, copy_inputs=False); c_.run()
+        if c_.diseases[0] is not dis or c_.networks[0] is not net: fails.append('copy_inputs=False: the sim does not hold the user\'s objects')
+        elif not dis.initialized or dis.sim is not c_: fails.append('copy_inputs=False: the user\'s object is not the one the sim ran')
+        d_ = ss.Sim(n_agents=90, dur=5, verbose=0, diseases=ss.SIR(beta=0.2), networks=ss.RandomNet()); d_.run()
+        if flat_results(c_) != flat_results(d_): fails.append('copy_inputs=False changes the results')
+    except Exception as e:
+        fails.append(f'copy_inputs=False run failed: {type(e).__name__}: {str(e)[:80]}')
+    return fails
+
+
+def oracle_precedence(cls, par, tok):
+    """ the same parameter in the pars dict and as a keyword: exactly one of the two values is in effect, always the same one """
+    quiet()
+    a_, b_ = sentinel(tok), sentinel(tok + 1)
+    outs = []
+    for i in range(2):
+        try:
+            m = construct(cls, pars={par: a_}, **{par: b_})
+        except Exception:
+            return None
+        ha, hb = graph_has(m, None, 'number', tok), graph_has(m, None, 'number', tok + 1)
+        outs.append((ha, hb))
+    data = dict(kind='precedence', cls=cls.__name__, par=par, tok=tok)
+    if outs[0] != outs[1] or outs[0] not in ((True, False), (False, True)):
+        return dict(signature=dict(oracle='precedence'), what=f"{cls.__name__}(pars={{{par}: a}}, {par}=b): values in effect (a, b) = {outs}", data=data)
+    if outs[0] != (False, True) and uses_update_pars(cls):
+        return dict(signature=dict(oracle='precedence', winner='dict'), what=f"{cls.__name__}(pars={{{par}: a}}, {par}=b): the dict entry beat the keyword (sc.mergedicts(pars, kwargs) documents: later wins)", data=data)
+    return None
+
+
+SIM_UPDATES = [('n_agents', 60, lambda s_: len(s_.people)), ('dt', 0.5, lambda s_: s_.t.dt), ('dur', 7, lambda s_: s_.t.npts - 1),
+               ('rand_seed', 5, lambda s_: s_.pars.rand_seed), ('start', 2010, lambda s_: s_.t.start)]
+
+
+def oracle_sim_update(stage, key):
+    """ sim.pars.update(key=value) after construction (must be in effect once initialised) / after init (in effect or an error) """
+    import starsim as ss
+    quiet()
+    val, read = {k: (v, r) for k, v, r in SIM_UPDATES}[key]
+    s_ = ss.Sim(n_agents=80, dur=4, diseases='sir', networks='random', verbose=0)
+    data = dict(kind='sim-update', stage=stage, key=key)
+    try:
+        if stage == 'post-init': s_.init()
+        s_.pars.update({key: val})
+        if stage == 'pre-init': s_.init()
+        s_.run()
+    except Exception:
+        return None
+    got = read(s_)
+    if got == val and s_.pars[key] == val: return None
+    return dict(signature=dict(oracle='sim-update-stale', stage=stage),
+                what=f"sim.pars.update({key}={val}) {stage} returned normally; sim.pars.{key}={s_.pars[key]} but the simulation ran with {got}", data=data)
+
+
+def oracle_module_update_postinit():
+    """ module-level parameters updated through sim.pars after init reach the module objects the run uses """
+    import starsim as ss
+    quiet()
+    s_ = ss.Sim(n_agents=80, dur=4, diseases='sir', networks='random', verbose=0); s_.init()
+    v = sentinel(33)
+    try:
+        s_.pars.update(sir=dict(dur_inf=4 + v, beta=v))
+    except Exception:
+        return None
+    d = s_.diseases.sir
+    if d.pars.dur_inf.pars[0] != 4 + v or d.pars.beta.v != v:
+        return dict(signature=dict(oracle='sim-update-stale', stage='post-init-module'), what='sim.pars.update(sir=dict(...)) after init did not reach the module', data=dict(kind='module-update'))
+    return None
+
+
+DUP_LISTS = {'str-str': lambda ss: ['sir', 'sir'], 'inst-inst': lambda ss: [ss.SIR(), ss.SIR()], 'str-dict': lambda ss: ['sir', dict(type='sir')],
+             'same-inst': lambda ss: (lambda m: [m, m])(ss.SIR()), 'renamed': lambda ss: ['sis', ss.SIR(name='sis')], 'net-alias': lambda ss: None}
+
+
+def oracle_duplicates(tag):
+    """ two modules of one name in a list: an error, never a silently dropped or overwritten module """
+    import starsim as ss
+    quiet()
+    mk = 'diseases'; lst = DUP_LISTS[tag](ss)
+    if tag == 'net-alias': mk, lst = 'networks', ['random', 'randomnet']
+    try:
+        s_ = ss.Sim(**{mk: lst}); s_.pars.validate()
+    except Exception:
+        return None
+    n = len(s_.pars[mk])
+    return dict(signature=dict(oracle='duplicate-module-accepted'), what=f"{mk}={tag}: a list of {len(lst)} modules with one name validated into {n} module(s) without an error", data=dict(kind='duplicates', tag=tag))
+
+
+def kind_spellings(kind):
+    """ {spelling tag: kwargs for ss.Sim} for one module of the given kind, all meant to be the same configuration """
+    import starsim as ss
+    quiet()
+
+    class C17Count(ss.Analyzer):
+        def step(self): self.results_seen = getattr(self, 'results_seen', 0) + 1
+
+    class C17Conn(ss.Connector):
+        def step(self): self.sim.diseases.sir.rel_sus[:] = 0.5
+
+    def vx(**kw): return ss.routine_vx(product=ss.sir_vaccine(**kw), prob=0.3, start_year=2001)
+    base = dict(diseases='sir', networks='random')
+    if kind == 'disease':
+        return {t: dict(base, diseases=v) for t, v in dict(str='sis', STR='SIS', dict=dict(type='sis'), dictcls=dict(type=ss.SIS), inst=ss.SIS(),
+                                                            lst=['sis'], lstinst=[ss.SIS()], kw=ss.SIS(dur_inf=10), pars=ss.SIS(pars=dict(dur_inf=10)),
+                                                            dictkw=dict(type='sis', dur_inf=10), num=ss.SIS(dur_inf=10.0)).items()}
+    if kind == 'network':
+        return {t: dict(base, networks=v) for t, v in dict(str='random', alias='randomnet', dict=dict(type='random'), dictcls=dict(type=ss.RandomNet),
+                                                            inst=ss.RandomNet(), lst=['random'], kw=ss.RandomNet(n_contacts=10), dictkw=dict(type='random', n_contacts=10),
+                                                            dist=ss.RandomNet(n_contacts=ss.constant(10)), distdict=ss.RandomNet(n_contacts=dict(type='constant', v=10))).items()}
+    if kind == 'demographics':
+        return {t: dict(base, demographics=v) for t, v in dict(str='births', dict=dict(type='births'), dictcls=dict(type=ss.Births), inst=ss.Births(),
+                                                                lst=[ss.Births()], kw=ss.Births(birth_rate=30), tp=ss.Births(birth_rate=ss.peryear(30)),
+                                                                dictkw=dict(type='births', birth_rate=30)).items()}
+    if kind == 'intervention':
+        return {t: dict(base, interventions=v) for t, v in dict(inst=vx(), lst=[vx()], dict=dict(type='routine_vx', product=ss.sir_vaccine(), prob=0.3, start_year=2001),
+                                                                 dictcls=dict(type=ss.routine_vx, product=ss.sir_vaccine(), prob=0.3, start_year=2001)).items()}
+    if kind == 'product':
+        return {t: dict(base, interventions=v) for t, v in dict(kw=vx(efficacy=0.7), pars=vx(pars=dict(efficacy=0.7)), posdict=ss.routine_vx(product=ss.sir_vaccine(dict(efficacy=0.7)), prob=0.3, start_year=2001)).items()}
+    if kind == 'analyzer':
+        return {t: dict(base, analyzers=v) for t, v in dict(inst=C17Count(), cls=C17Count, lst=[C17Count()], lstcls=[C17Count]).items()}
+    if kind == 'connector':
+        return {t: dict(base, connectors=v) for t, v in dict(inst=C17Conn(), lst=[C17Conn()]).items()}
+    raise ValueError(kind)
+
+
+KIND_GROUPS = {  # spellings that must agree with each other (different parameter values are different groups)
+    'disease': [['str', 'STR', 'dict', 'dictcls', 'inst', 'lst', 'lstinst'], ['kw', 'pars', 'dictkw', 'num']],
+    'network': [['str', 'alias', 'dict', 'dictcls', 'inst', 'lst', 'kw', 'dictkw', 'dist', 'distdict']],
+    'demographics': [['str', 'dict', 'dictcls', 'inst', 'lst'], ['kw', 'tp', 'dictkw']],
+    'intervention': [['inst', 'lst', 'dict', 'dictcls']], 'product': [['kw', 'pars', 'posdict']],
+    'analyzer': [['inst', 'cls', 'lst', 'lstcls']], 'connector': [['inst', 'lst']],
+}
+
+
+def oracle_kind_results(kind, seed):
+    """ every spelling of one module of this kind gives bit-identical results """
+    quiet()
+    sp = kind_spellings(kind)
+    res = {}
+    for tag, kw in sp.items():
+        try:
+            s_ = small_sim(seed, **kw); s_.run(); res[tag] = flat_results(s_)
+        except Exception as e:
+            res[tag] = f'{type(e).__name__}: {str(e)[:80]}'
+    for group in KIND_GROUPS[kind]:
+        ref = group[0]
+        for tag in group[1:]:
+            if res[tag] != res[ref]:
+                why = res[tag] if isinstance(res[tag], str) else (res[ref] if isinstance(res[ref], str) else [k for k in res[tag] if res[tag].get(k) != res[ref].get(k)][:4])
+                return dict(signature=dict(oracle='spelling-results-differ', kind=kind),
+                            what=f'{kind}: spellings `{ref}` and `{tag}` of the same configuration give different results ({why})', data=dict(kind='kind-results', mkind=kind, seed=seed))
+    return None
+
+
+def round2_search(ctx, targets):
+    import starsim as ss
+    quiet()
+
+    def report(f):
+        if f: ctx.fail(f['signature'], f['what'], f['data'])
+    # value spellings and edge numbers: every Dist / TimePar parameter of every class (cheap)
+    for cls, probe in targets:
+        m0 = cls() if probe else construct(cls)
+        for par in m0.pars.keys():
+            tk = okind_of(m0.pars[par])
+            if tk.startswith(('dist', 'bern')):
+                same_t = type(m0.pars[par]).__name__
+                for tname in dict.fromkeys([same_t, 'bernoulli' if tk.startswith('bern') else 'normal', 'lognorm_ex' if not tk.startswith('bern') else 'bernoulli']):
+                    report(oracle_value_spellings(cls, par, tname, 10 + ctx.rng.randint(0, 900), probe)); ctx.count('oracle_value_spelling')
+            if tk.startswith(('dist', 'bern', 'timepar', 'beta')):
+                for tag in EDGE_NUMBERS:
+                    report(oracle_edge_number(cls, par, tag, ctx.rng.randint(1, 60), probe)); ctx.count('oracle_edge_number')
+        report(oracle_input_reuse(cls, 10 + ctx.rng.randint(0, 900), probe)); ctx.count('oracle_input_reuse')
+        if not probe and uses_update_pars(cls):
+            nums = [k for k in m0.pars.keys() if okind_of(m0.pars[k]) == 'num' and not isinstance(m0.pars[k], bool)
+                    or okind_of(m0.pars[k]).startswith(('dist', 'timepar'))]
+            for par in nums[:2]:
+                report(oracle_precedence(cls, par, 10 + ctx.rng.randint(0, 900))); ctx.count('oracle_precedence')
+    for msg in oracle_sim_inputs(ctx.rng.randint(0, 10**6)):
+        ctx.fail(dict(oracle='sim-inputs'), msg, dict(kind='sim-inputs', seed=0))
+    ctx.count('oracle_sim_inputs')
+    for stage in ('pre-init', 'post-init'):
+        for key, _, _ in SIM_UPDATES:
+            report(oracle_sim_update(stage, key)); ctx.count('oracle_sim_update')
+    report(oracle_module_update_postinit())
+    for tag in DUP_LISTS:
+        report(oracle_duplicates(tag)); ctx.count('oracle_duplicates')
+    for kind in KIND_GROUPS:
+        report(oracle_kind_results(kind, ctx.rng.randint(0, 10**6))); ctx.count('oracle_kind_results')
+
+
 def search(ctx):
     import starsim as ss
     quiet()
     classes, skipped, mods = constructible()
     Probe = make_probe_class()
     targets = [(cls, False) for mk, cls in classes] + [(Probe, True)]
+    round2_search(ctx, targets)
     # (a) applied or rejected: sampled over class x parameter x kind x route (exhaustive when something broke / thorough)
     pool = []
     for cls, probe in targets:
@@ -1276,7 +1752,8 @@ def search(ctx):
                 if f: ctx.fail(f['signature'], f['what'], f['data'])
     # (d) spellings: parameters for sampled names, results for a few configurations
     ctx.rng.shuffle(names)
-    for mk, name in names[:ctx.budget(15, len(names))]:
+    extra = [(mk, n) for mk in MODKEYS for n, c in mods.get(mk, {}).items() if c not in [x for _, x in classes]]
+    for mk, name in names[:ctx.budget(15, len(names))] + extra:
         f = oracle_spelling_pars(mk, name)
         ctx.count('oracle_spelling_pars')
         if f: ctx.fail(f['signature'], f['what'], f['data'])
@@ -1326,6 +1803,24 @@ def replay(ctx, data):
         return bool(observe_copy(data['seed'])['fails'])
     if k in ('direct', 'ctor'):
         return bool(oracle_apply(resolve_cls(data['cls'], data.get('probe')), data['par'], data['nk'], data['tok'], 'direct' if k == 'direct' else 'ctor', data.get('probe', False)))
+    if k == 'edge':
+        return bool(oracle_edge_number(resolve_cls(data['cls'], data.get('probe')), data['par'], data['tag'], data['tok'], data.get('probe', False)))
+    if k == 'value-spelling':
+        return bool(oracle_value_spellings(resolve_cls(data['cls'], data.get('probe')), data['par'], data['tname'], data['tok'], data.get('probe', False)))
+    if k == 'input-reuse':
+        return bool(oracle_input_reuse(resolve_cls(data['cls'], data.get('probe')), data['tok'], data.get('probe', False)))
+    if k == 'sim-inputs':
+        return bool(oracle_sim_inputs(data.get('seed', 0)))
+    if k == 'precedence':
+        return bool(oracle_precedence(resolve_cls(data['cls'], False), data['par'], data['tok']))
+    if k == 'sim-update':
+        return bool(oracle_sim_update(data['stage'], data['key']))
+    if k == 'module-update':
+        return bool(oracle_module_update_postinit())
+    if k == 'duplicates':
+        return bool(oracle_duplicates(data['tag']))
+    if k == 'kind-results':
+        return bool(oracle_kind_results(data['mkind'], data['seed']))
     if k == 'route':
         return False
     return False
